@@ -141,6 +141,11 @@ func (x Expr) GetNodes(n gen.Node) (results []gen.Node) {
 			di, _ := stack[len(stack)-1].(index)
 			top := (di & descentChildFlag) == 0
 			// first pass expands, second continues evaluation
+			if (int64(di) & descentFlag) != 0 {
+				// Second pass for this element. Clear the flag on the fragment index
+				// shared with the siblings still on the stack so they get expanded too.
+				stack[len(stack)-1] = di &^ descentFlag
+			}
 			if (int64(di) & descentFlag) == 0 {
 				switch tv := prev.(type) {
 				case gen.Object:
@@ -449,6 +454,11 @@ func (x Expr) FirstNode(n gen.Node) (result gen.Node) {
 		case Descent:
 			di, _ := stack[len(stack)-1].(index)
 			// first pass expands, second continues evaluation
+			if (int64(di) & descentFlag) != 0 {
+				// Second pass for this element. Clear the flag on the fragment index
+				// shared with the siblings still on the stack so they get expanded too.
+				stack[len(stack)-1] = di &^ descentFlag
+			}
 			if (int64(di) & descentFlag) == 0 {
 				switch tv := prev.(type) {
 				case gen.Object:
